@@ -35,7 +35,8 @@ def pid_exists(pid):
         return True
     try:
         os.kill(pid, 0)
-    except ProcessLookupError:
+    except (ProcessLookupError, OverflowError):
+        # OverflowError: PID does not fit a C pid_t, hence cannot exist
         return False
     except PermissionError:
         # EPERM clearly means there's a process to deny access to
